@@ -13,7 +13,8 @@ RULE = ("Decimals: all sign x <=4 significant digits x exponent -8..8 (thorough;
         "digits; booleans: full tables; ints to 10^40; floats incl. extremes; date/time/dateTime: boundary grid "
         "(years 1,4,100,400,1900,2000,9999; month ends; leap days; 23:59:59.999999; fractions of length 1..12 around "
         "...4999/...5000; offsets -23:59..+23:59) x lexical variants + malformed stream; non-trivial = not the "
-        "canonical mid-range value; distinct = distinct input strings/values")
+        "canonical mid-range value; distinct = distinct input strings/values"
+        ' ; plus streams: named simple types derived by restriction, attribute values of every type (falsy ones included)')
 ASSUMPTIONS = ["Python int()/str()/float()/repr()/Decimal()/datetime are runtime (trusted, covered by correspondence)"]
 PARTIAL = [
     {"theorem": "float round trip", "missing": "Python float repr/parse is runtime; covered by correspondence only"},
